@@ -69,13 +69,20 @@ pub fn check_bytes(ctx: &Ctx, bytes: &[u8], origin: &str, st: &mut Stats) -> usi
             }
         }
     };
-    let file = File::new(bytes.to_vec());
+    // allocation capacity is not part of the value: odd-length inputs are wrapped in vectors with
+    // spare capacity, even-length ones in exactly sized vectors
+    let owned = |b: &[u8]| -> Vec<u8> {
+        let mut v = Vec::with_capacity(b.len() + if b.len() % 2 == 1 { 37 } else { 0 });
+        v.extend_from_slice(b);
+        v
+    };
+    let file = File::new(owned(bytes));
     one("File::records", &mut || file.records().len());
     one("File::header", &mut || file.header().is_ok() as usize);
     one("File::scan", &mut || file.scan().map(|s| s.sweeps().len()).unwrap_or(0));
     one("File::debug", &mut || format!("{:?}", file).len());
     one("split_compressed_records", &mut || split_compressed_records(bytes).len());
-    let rec = Record::new(bytes.to_vec());
+    let rec = Record::new(owned(bytes));
     one("Record::data", &mut || rec.data().len());
     one("Record::compressed", &mut || rec.compressed() as usize);
     one("Record::decompress", &mut || rec.decompress().map(|r| r.data().len()).unwrap_or(0));
@@ -83,8 +90,8 @@ pub fn check_bytes(ctx: &Ctx, bytes: &[u8], origin: &str, st: &mut Stats) -> usi
     one("Record::debug", &mut || format!("{:?}", rec).len());
     let slice_rec = Record::from_slice(bytes);
     one("Record::debug", &mut || record_ops(&slice_rec));
-    one("Chunk::new", &mut || Chunk::new(bytes.to_vec()).is_ok() as usize);
-    if let Caught::Ret(Ok(ch)) = guarded(|| Chunk::new(bytes.to_vec())) {
+    one("Chunk::new", &mut || Chunk::new(owned(bytes)).is_ok() as usize);
+    if let Caught::Ret(Ok(ch)) = guarded(|| Chunk::new(owned(bytes))) {
         one("Chunk::data", &mut || ch.data().len());
         one("Chunk::debug", &mut || format!("{:?}", ch).len());
         one("Chunk::inner_ops", &mut || match &ch {
